@@ -237,7 +237,9 @@ class MLAllowlist(Analysis):
 
 class FicklingMLUnpickler(pickle.Unpickler):
     def __init__(self, *args, also_allow: List[str] = None, **kwargs):
-        self.allowlist = dict(ML_ALLOWLIST)
+        # Copy the per-module dictionaries too: `dict(ML_ALLOWLIST)` is a shallow copy, so adding a
+        # user-allowed name to an already listed module would modify the shared built-in allowlist
+        self.allowlist = {module: dict(names) for module, names in ML_ALLOWLIST.items()}
         super().__init__(*args, **kwargs)
         # Add additional allowed imports
         if also_allow:
